@@ -11,11 +11,11 @@
   State maps are compared up to lookup (`StEq`), outcomes by `ResEq` (same failure, or `StEq`).
 
   Every stage theorem stands on its own; `resolve_refines_spec_*` assemble them.
-  The room hypothesis `SpecWF` (`Lemmas/StateResSpec.lean`) is C06's `RoomWF` plus: state maps and
+  The room hypothesis `RoomOk` (`Lemmas/StateResSpec.lean`) is C06's `RoomWF` plus: state maps and
   auth chains are maps/sets (`SetsWF`, duplicate-free chains), no event of the full conflicted set
   is itself an `m.room.create` event, the store is closed under `auth_events` and acyclic, the state
-  sets mention known events only, and authorization reads only the selected auth types
-  (`AuthLocal`, C09 — a theorem for `realParams`, see `authLocal_real`).
+  sets mention known events only. `SpecWF p …` is `RoomOk` plus: authorization reads only the
+  selected auth types (`AuthLocal p`, C09 — a theorem for `realParams`, see `authLocal_real`).
 -/
 import RumaModel.Lemmas.StateResWitness
 namespace Ruma.Props.C07
@@ -254,6 +254,16 @@ theorem resolve_refines_spec_partial (p : Params) {o : Orders} (ho : o.Valid) (s
     ResEq (resolve p o store sets chains) (resolveV2F4 p store sets chains) :=
   resolve_refines_dev p ho store wf
 
+/-- **resolve_refines_spec_real.** The same for the repository's own authorization functions, with no
+hypothesis left about them: for every consistent rule set `r` (every room version), every room
+satisfying `RoomOk` and all iteration orders, `resolve` is the F4-deviation-carrying specification,
+both instantiated with the C08/C09 model of `event_auth.rs`. -/
+theorem resolve_refines_spec_real (r : AuthRules) (hc : r.Consistent) {o : Orders} (ho : o.Valid)
+    (store : List Event) {sets : List StateMap} {chains : List (List Id)} {c0 : Event}
+    (wf : RoomOk store sets chains c0) :
+    ResEq (resolve (realParams r) o store sets chains) (resolveV2F4 (realParams r) store sets chains) :=
+  resolve_refines_dev _ ho store { wf with authLocal := authLocal_realParams r hc }
+
 /-- **resolve_refines_spec_noF4.** If moreover F4 cannot show (`F4Free`: whichever power-levels event
 of the store is the resolved one, the events left for the mainline ordering all have a mainline
 ancestor or none has), `resolve` is the spec's state resolution v2. -/
@@ -265,9 +275,11 @@ theorem resolve_refines_spec_noF4 (p : Params) {o : Orders} (ho : o.Valid) (stor
   rw [resolveWith_dev_eq hf4] at this
   exact this
 
-/-- `SpecWF` is satisfiable: the F4 witness room with the repository's room-version-6 rules. -/
+/-- `RoomOk` / `SpecWF` are satisfiable: the F4 witness room with the repository's room-version-6
+rules. -/
 example : SpecWF (realParams AuthRules.v6) F4Witness.store F4Witness.sets F4Witness.chains F4Witness.c :=
   F4Witness.specWF
+example : RoomOk F4Witness.store F4Witness.sets F4Witness.chains F4Witness.c := F4Witness.roomOk
 
 /-- `SpecWF` and `F4Free` are satisfiable together: the same room with `$t1` also citing the
 power-levels event (both topics then have the mainline ancestor `$pl`). -/
@@ -322,6 +334,7 @@ end Ruma.Props.C07
 #print axioms Ruma.Props.C07.mainlineSortSpecStatement_refuted
 #print axioms Ruma.Props.C07.resolve_keeps_unconflicted
 #print axioms Ruma.Props.C07.resolve_refines_spec_partial
+#print axioms Ruma.Props.C07.resolve_refines_spec_real
 #print axioms Ruma.Props.C07.resolve_refines_spec_noF4
 #print axioms Ruma.Props.C07.f4_deviation_observable
 #print axioms Ruma.Props.C07.resolveRefinesSpecStatement_refuted
